@@ -206,6 +206,12 @@ def run(ck: Check):
         "MDOParallelChain only where no two disciplines are mutually dependent",
     ]
 
+    # ---- specification growth (outside C08 as stated): namespaces and the grammar / data-flow construction
+    # of composite processes (ProcessGrammar.tla)
+    from ..growth import g03_process_grammar
+
+    g03_process_grammar.run(ck)
+
 
 def _count_init(r):
     import re
